@@ -232,6 +232,12 @@ func fuzzSeeds(add func(data []byte, sel, p uint8)) {
 		add(append(append([]byte{0x1b}, uleb(uint64(uint32(n)))...), 0x85, 0x00), 5, 2)               // compact map field 1
 		add(append(append([]byte{0x98}, uleb(uint64(uint32(n)))...), 'a', 0x00), 1, 2)                // compact string field 9
 	}
+	// a list really holding 1025 one-byte elements (more than the decoder preallocates) with an inflated count
+	ones := bytes.Repeat([]byte{1}, 1025)
+	for _, n := range []int32{1025, 4100, 1 << 26, 1<<31 - 1} {
+		add(bytes.Join([][]byte{{list, 0, 2, byte(thrift.BOOL)}, be32(n), ones, {0}}, nil), 3, 0)
+		add(bytes.Join([][]byte{{0x29, 0xf2}, uleb(uint64(n)), ones, {0}}, nil), 3, 2)
+	}
 	for _, ty := range []byte{0, 13, 14, 15, 16} {
 		add([]byte{ty, 0, 1, 1, 0}, 1, 0)
 		add([]byte{0x10 | ty&0x0f, 1, 0}, 1, 2)
